@@ -309,7 +309,7 @@ def _interval_operators(ctx: Ctx) -> Set[str]:
     from .c08 import forward_shape, op_paths
     from .normalise import normalised
 
-    fwd = normalised(ctx, ctx.func("Port._items_to_ports"), "unroll,beta")
+    fwd = normalised(ctx, ctx.func("Port._items_to_ports"), "dispatch,unroll,beta")
     operators = list(ctx.folder.const("helpers", "OPERATORS"))
     out: Set[str] = set()
     for op, ps in op_paths(ctx, fwd, operators).items():
